@@ -888,13 +888,19 @@ int fmtime(int f, int64_t mtime_sec, int mtime_nsec)
 	int ret;
 
 #if HAVE_FUTIMENS /* futimens() is preferred because it gives nanosecond precision */
-	tv[0].tv_sec = mtime_sec;
+	tv[1].tv_sec = mtime_sec;
 	if (mtime_nsec != STAT_NSEC_INVALID)
-		tv[0].tv_nsec = mtime_nsec;
+		tv[1].tv_nsec = mtime_nsec;
 	else
-		tv[0].tv_nsec = 0;
-	tv[1].tv_sec = tv[0].tv_sec;
-	tv[1].tv_nsec = tv[0].tv_nsec;
+		tv[1].tv_nsec = 0;
+#ifdef UTIME_OMIT
+	/* keep the access time as it is, we are interested only at the modification time */
+	tv[0].tv_sec = 0;
+	tv[0].tv_nsec = UTIME_OMIT;
+#else
+	tv[0].tv_sec = tv[1].tv_sec;
+	tv[0].tv_nsec = tv[1].tv_nsec;
+#endif
 
 	ret = futimens(f, tv);
 #elif HAVE_FUTIMES /* fallback to futimes() if nanosecond precision is not available */
@@ -934,13 +940,19 @@ int lmtime(const char* path, int64_t mtime_sec, int mtime_nsec)
 	int ret;
 
 #if HAVE_UTIMENSAT /* utimensat() is preferred because it gives nanosecond precision */
-	tv[0].tv_sec = mtime_sec;
+	tv[1].tv_sec = mtime_sec;
 	if (mtime_nsec != STAT_NSEC_INVALID)
-		tv[0].tv_nsec = mtime_nsec;
+		tv[1].tv_nsec = mtime_nsec;
 	else
-		tv[0].tv_nsec = 0;
-	tv[1].tv_sec = tv[0].tv_sec;
-	tv[1].tv_nsec = tv[0].tv_nsec;
+		tv[1].tv_nsec = 0;
+#ifdef UTIME_OMIT
+	/* keep the access time as it is, we are interested only at the modification time */
+	tv[0].tv_sec = 0;
+	tv[0].tv_nsec = UTIME_OMIT;
+#else
+	tv[0].tv_sec = tv[1].tv_sec;
+	tv[0].tv_nsec = tv[1].tv_nsec;
+#endif
 
 	ret = utimensat(AT_FDCWD, path, tv, AT_SYMLINK_NOFOLLOW);
 #elif HAVE_LUTIMES /* fallback to lutimes() if nanosecond precision is not available */
